@@ -232,6 +232,31 @@ def kernelWhy (strand : Nat) (target working : Array Nat) (traps : List Trap) (k
 def trapWork (traps : List Trap) : Int :=
   traps.foldl (fun acc t => acc + (t.top - t.bottom + 1) * (t.right - t.left + 1 + 40)) 0
 
+/-- Recogniser of known finding **K6** (one alignment per row range inside a trapezoid).
+    `alignRecursion` splits a trapezoid only by rows: after the alignment through its middle row
+    it recurses into the rows above and below, so a second repeat whose query rows overlap those
+    of a reported alignment *in the same trapezoid* (another diagonal of a very wide trapezoid —
+    the short-seed regime, where the filter threshold is 1 and everything merges) is never
+    aligned.  A missed planted pair is K6 when, in one of its orientations, an implementation
+    trapezoid of that strand contains its diagonal and overlaps its query rows, and a reported hit
+    of that strand that does not recover it lies in the same trapezoid on overlapping query rows. -/
+def isK6 (self : Bool) (qLen : Nat) (traps : List Trap) (hits : List HitObs) (p : Plant) : Bool :=
+  let strand : Nat := if p.comp then 1 else 0
+  let hs := hits.filter fun o => o.strand == strand && !recovers self qLen p o
+  let bsD : Int := if p.comp then (qLen : Int) - (p.bPos + p.bLen : Nat) else p.bPos
+  let bsM : Int := if p.comp then (qLen : Int) - (p.aPos + p.aLen : Nat) else p.aPos
+  let orients : List (Int × Int × Int) :=
+    [((p.aPos : Int), bsD, bsD + p.bLen)] ++ (if self then [((p.bPos : Int), bsM, bsM + p.aLen)] else [])
+  orients.any fun (tA, bs, be) =>
+    let d := bs - tA
+    traps.any fun t =>
+      decide (t.left - 12 ≤ d) && decide (d ≤ t.right + 12) && decide (t.bottom ≤ be) && decide (bs ≤ t.top) &&
+      hs.any fun o =>
+        let hd := o.h.bbpos - o.h.abpos
+        decide (t.left - 12 ≤ hd) && decide (hd ≤ t.right + 12) &&
+        decide (t.bottom ≤ o.h.bepos) && decide (o.h.bbpos ≤ t.top) &&
+        decide (o.h.bbpos < be) && decide (bs < o.h.bepos)
+
 def handleCase (self : Bool) (minLen minIdMilli maxMemMB : Int) (plants : List Plant) (target query : Array Nat)
     (obs : String) (givenTraps : Option (List Trap) := none) : Verdict :=
   let baseTags := [if self then "self" else "non-self"] ++
@@ -297,9 +322,15 @@ def handleCase (self : Bool) (minLen minIdMilli maxMemMB : Int) (plants : List P
              (if boundary.any (fun p => !demanded self target query working1 n e p && !hits.any (recovers self query.size p))
               then ["boundary-unguaranteed-missed"] else [])
            else [])
-        match plants.find? (fun p => demanded self target query working1 n e p && !hits.any (recovers self query.size p)) with
-        | some p => fail s!"planted-repeat-not-recovered {p.aPos}:{p.aLen}:{p.bPos}:{p.bLen}:{if p.comp then 1 else 0}:{p.cls}" tags
-        | none =>
+        let missed := plants.filter fun p => demanded self target query working1 n e p && !hits.any (recovers self query.size p)
+        let showPlant := fun (p : Plant) => s!"{p.aPos}:{p.aLen}:{p.bPos}:{p.bLen}:{if p.comp then 1 else 0}:{p.cls}"
+        let k6 := fun (p : Plant) => match trapsObs with
+          | some (t0, t1) => isK6 self query.size (if p.comp then t1 else t0) hits p
+          | none => false
+        match missed.find? (fun p => !k6 p), missed with
+        | some p, _ => fail s!"planted-repeat-not-recovered {showPlant p}" tags
+        | none, p :: _ => known "K6" s!"planted-repeat-shares-query-rows-with-a-reported-hit-in-one-trapezoid {showPlant p}" tags
+        | none, [] =>
           match hits.findSome? (modelWhy minLen minIdMilli) with
           | some w => diff w tags
           | none =>
